@@ -347,83 +347,94 @@ def updateBest (o : Obj σ α) (s : St σ α δ) : St σ α δ :=
         | none => loop s rest
     loop s gs
 
+/-- sampling with goal biasing (the `&&` chain short-circuits: the draw happens only while goals may
+still be sampled). -/
+def drawSample (sp : Space σ δ) (s : St σ α δ) : Option σ × St σ α δ :=
+  if s.goalMotions.length < sp.maxGoalSamples then
+    match s.u01s with
+    | [] => (none, { s with starved := true })
+    | u :: us =>
+      let s := { s with u01s := us }
+      if sp.dlt u sp.goalBias then (some sp.goalState, s)
+      else
+        match s.samples with
+        | [] => (none, { s with starved := true })
+        | x :: xs => (some x, { s with samples := xs })
+  else
+    match s.samples with
+    | [] => (none, { s with starved := true })
+    | x :: xs => (some x, { s with samples := xs })
+
+/-- from `getNeighbors` to the end of the rewiring loop: neighbourhood, choose-parent (delayed collision
+checking), insertion, rewiring.  Returns the state, the new motion's index and `checkForSolution`. -/
+def grow (o : Obj σ α) (sp : Space σ δ) (s : St σ α δ) (nmotion : Nat) (nm : Motion σ α) (dstate : σ) :
+    St σ α δ × Nat × Bool :=
+  let inc0 := o.motionCost nm.state dstate
+  let cost0 := o.combine nm.cost inc0
+  -- getNeighbors
+  let (nbh, t1) := nearestK sp s.motions dstate (sp.kNearest s.motions.size)
+  let nbhP := (List.range nbh.length).zip nbh          -- (position, motion index)
+  let incs := nbh.map (fun ni => match s.motions[ni]? with
+    | some m => o.motionCost m.state dstate
+    | none => o.identity)
+  let costs := (nbh.zip incs).map (fun p => match s.motions[p.1]? with
+    | some m => o.combine m.cost p.2
+    | none => o.identity)
+  -- sort positions by cost with std::sort (CostIndexCompare = isCostBetterThan on costs[i], costs[j])
+  let costArr := costs.toArray
+  let (sortedC, t2) := stdSort (fun i j => match costArr[i]?, costArr[j]? with
+    | some ci, some cj => o.better ci cj
+    | _, _ => false) (Array.range nbh.length)
+  let cands := sortedC.toList.map (fun p => (p, nbh.getD p 0))
+  let (chosen, valid, s) := chooseParent sp s.motions nmotion dstate cands s []
+  let (par, inc, cost) :=
+    match chosen with
+    | some i => (nbh.getD i nmotion, incs.getD i inc0, costs.getD i cost0)
+    | none => (nmotion, inc0, cost0)
+  -- add motion to the tree
+  let new := s.motions.size
+  let newMotion : Motion σ α :=
+    { state := dstate, parent := some par, cost := cost, incCost := inc, children := [], inGoal := false }
+  let ms := s.motions.push newMotion
+  let ms := ms.modify par (fun m => { m with children := m.children ++ [new] })
+  let s := { s with motions := ms, tie := s.tie || t1 || t2 }
+  -- rewiring
+  let (s, chk) := nbhP.foldl (rewireOne o sp new valid incs) (s, false)
+  (s, new, chk)
+
+/-- goal test, solution bookkeeping, approximate-solution bookkeeping for the new motion. -/
+def finishIter (o : Obj σ α) (sp : Space σ δ) (s : St σ α δ) (new : Nat) (chk : Bool) (dstate : σ) : St σ α δ :=
+  let dg := sp.goalDist dstate
+  let sat := !sp.dlt sp.goalThr dg                       -- d2g <= threshold_
+  let (s, chk) :=
+    if sat then
+      ({ s with motions := s.motions.modify new (fun m => { m with inGoal := true }),
+                goalMotions := s.goalMotions ++ [new] }, true)
+    else (s, chk)
+  let s := if chk then updateBest o s else s
+  if s.goalMotions.isEmpty && sp.dlt dg s.approxDist then
+    { s with approxGoal := some new, approxDist := dg }
+  else s
+
 /-- one pass of the `while (ptc == false)` body. -/
 def iterate (o : Obj σ α) (sp : Space σ δ) (s0 : St σ α δ) : St σ α δ :=
   let s := { s0 with iterations := s0.iterations + 1, queries := [] }
-  -- sampling (the `&&` chain short-circuits: the draw happens only while goals may still be sampled)
-  let (rstate?, s) :=
-    if s.goalMotions.length < sp.maxGoalSamples then
-      match s.u01s with
-      | [] => (none, { s with starved := true })
-      | u :: us =>
-        let s := { s with u01s := us }
-        if sp.dlt u sp.goalBias then (some sp.goalState, s)
-        else
-          match s.samples with
-          | [] => (none, { s with starved := true })
-          | x :: xs => (some x, { s with samples := xs })
-    else
-      match s.samples with
-      | [] => (none, { s with starved := true })
-      | x :: xs => (some x, { s with samples := xs })
-  match rstate? with
-  | none => s
-  | some rstate =>
-  match nearestIdx sp s.motions rstate with
-  | none => s
-  | some nmotion =>
-  match s.motions[nmotion]? with
-  | none => s
-  | some nm =>
-  let d := sp.dist nm.state rstate
-  let dstate := if sp.dlt sp.maxDistance d then sp.steer nm.state rstate d else rstate
-  let (ok, s) := s.checkMotion nm.state dstate
-  if !ok then s
-  else
-    let inc0 := o.motionCost nm.state dstate
-    let cost0 := o.combine nm.cost inc0
-    -- getNeighbors
-    let (nbh, t1) := nearestK sp s.motions dstate (sp.kNearest s.motions.size)
-    let nbhP := (List.range nbh.length).zip nbh          -- (position, motion index)
-    let incs := nbh.map (fun ni => match s.motions[ni]? with
-      | some m => o.motionCost m.state dstate
-      | none => o.identity)
-    let costs := (nbh.zip incs).map (fun p => match s.motions[p.1]? with
-      | some m => o.combine m.cost p.2
-      | none => o.identity)
-    -- sort positions by cost with std::sort (CostIndexCompare = isCostBetterThan on costs[i], costs[j])
-    let costArr := costs.toArray
-    let (sortedC, t2) := stdSort (fun i j => match costArr[i]?, costArr[j]? with
-      | some ci, some cj => o.better ci cj
-      | _, _ => false) (Array.range nbh.length)
-    let cands := sortedC.toList.map (fun p => (p, nbh.getD p 0))
-    let (chosen, valid, s) := chooseParent sp s.motions nmotion dstate cands s []
-    let (par, inc, cost) :=
-      match chosen with
-      | some i => (nbh.getD i nmotion, incs.getD i inc0, costs.getD i cost0)
-      | none => (nmotion, inc0, cost0)
-    -- add motion to the tree
-    let new := s.motions.size
-    let newMotion : Motion σ α :=
-      { state := dstate, parent := some par, cost := cost, incCost := inc, children := [], inGoal := false }
-    let ms := s.motions.push newMotion
-    let ms := ms.modify par (fun m => { m with children := m.children ++ [new] })
-    let s := { s with motions := ms, tie := s.tie || t1 || t2 }
-    -- rewiring
-    let (s, chk) := nbhP.foldl (rewireOne o sp new valid incs) (s, false)
-    -- goal
-    let dg := sp.goalDist dstate
-    let sat := !sp.dlt sp.goalThr dg                       -- d2g <= threshold_
-    let (s, chk) :=
-      if sat then
-        ({ s with motions := s.motions.modify new (fun m => { m with inGoal := true }),
-                  goalMotions := s.goalMotions ++ [new] }, true)
-      else (s, chk)
-    let s := if chk then updateBest o s else s
-    -- approximate solution bookkeeping
-    if s.goalMotions.isEmpty && sp.dlt dg s.approxDist then
-      { s with approxGoal := some new, approxDist := dg }
-    else s
+  match drawSample sp s with
+  | (none, s) => s
+  | (some rstate, s) =>
+    match nearestIdx sp s.motions rstate with
+    | none => s
+    | some nmotion =>
+      match s.motions[nmotion]? with
+      | none => s
+      | some nm =>
+        let d := sp.dist nm.state rstate
+        let dstate := if sp.dlt sp.maxDistance d then sp.steer nm.state rstate d else rstate
+        match s.checkMotion nm.state dstate with
+        | (false, s) => s
+        | (true, s) =>
+          let (s, new, chk) := grow o sp s nmotion nm dstate
+          finishIter o sp s new chk dstate
 
 /-- `if (bestGoalMotion_ && opt_->isSatisfied(bestCost_)) break;` -/
 def shouldBreak (o : Obj σ α) (s : St σ α δ) : Bool :=
